@@ -87,3 +87,31 @@ func TestReproCopyOfUnfinalisedStateRoot(t *testing.T) {
 		t.Fatalf("copy root %x != original root %x", a, b)
 	}
 }
+
+// Not a C09 matter (no snapshot/copy involved; the rig's generator stays away
+// from it), reported for C05/C19: in kv mode the flat storage records of a
+// removed account are never deleted, so an account re-created at the same
+// address (any credit, or CREATE2 after SELFDESTRUCT) sees the old storage,
+// while trie mode gives it an empty one: the two storage modes disagree on
+// SLOAD results.
+func TestReproKVStorageSurvivesAccountDeletion(t *testing.T) {
+	reproOnly(t)
+	slot := common.HexToHash("0x01")
+	read := func(db state.Database) []byte {
+		s, _ := state.New(common.EmptyHash, db)
+		s.SetNonce(rA, 1)
+		s.SetState(rA, slot, []byte{0x50})
+		root, _ := s.Commit(false, 1)
+		s, _ = state.New(root, db)
+		s.Suicide(rA)
+		root, _ = s.Commit(false, 2)
+		s, _ = state.New(root, db)
+		s.AddBalance(rA, big.NewInt(1)) // the address comes back
+		return s.GetState(rA, slot)
+	}
+	trie := read(state.NewKeyValueDBWithCache(dbm.NewMemDB(), 0, true, 0))
+	kv := read(state.NewKeyValueDBWithCache(dbm.NewMemDB(), 0, false, 0))
+	if string(trie) != string(kv) {
+		t.Fatalf("storage of a re-created account: trie mode %x, kv mode %x", trie, kv)
+	}
+}
